@@ -377,3 +377,86 @@ func (c *Ctx) valueWith(fn *ssa.Function, v ssa.Value) (string, map[string]strin
 	}
 	return c.substParams(fn, call, base), out
 }
+
+// ctxEdge: one way a value can arise, in the namespace of the unit's root function.
+type ctxEdge struct {
+	term string
+	must []string
+}
+
+// ctxEdges lists the alternatives of value v (a φ is split into its incoming edges, each with
+// the literals that hold on that edge; any other value is one alternative under the literals
+// that hold at `at`), expressed in the namespace of root. When v lives in a private helper
+// of root (unit member m), the alternatives are produced once per call site of the helper
+// in root: parameters are replaced by the arguments, literals that become constant are
+// evaluated (an alternative whose guard is false at that site is dropped), and the literals
+// that hold at the call site are added. ok=false when the helper is not called directly
+// from root.
+func (c *Ctx) ctxEdges(root *ssa.Function, m unitMember, v ssa.Value, at *ssa.BasicBlock) ([]ctxEdge, bool) {
+	var local []ctxEdge
+	if ph, isPhi := v.(*ssa.Phi); isPhi && !isLoopHeader(ph.Block()) {
+		for i, e := range ph.Edges {
+			pred := ph.Block().Preds[i]
+			if edgeInfeasible(c, m.fn, pred, ph.Block()) {
+				continue
+			}
+			local = append(local, ctxEdge{c.term(m.fn, e), c.edgeMust(m.fn, pred, ph.Block())})
+		}
+	} else {
+		local = append(local, ctxEdge{c.term(m.fn, v), c.mustLits(m.fn, at)})
+	}
+	if m.fn == root {
+		return local, true
+	}
+	sites := callsToIn(root, m.fn)
+	if len(sites) == 0 {
+		return nil, false
+	}
+	var out []ctxEdge
+	for _, cs := range sites {
+		siteMust := c.mustLits(root, cs.Block())
+		for _, le := range local {
+			feasible := true
+			var must []string
+			for _, l := range le.must {
+				t, neg := normCondTerm(c.substParams(root, cs, l[1:]))
+				pos := l[0] == '+'
+				if neg {
+					pos = !pos
+				}
+				switch t {
+				case "true":
+					if !pos {
+						feasible = false
+					}
+					continue
+				case "false":
+					if pos {
+						feasible = false
+					}
+					continue
+				}
+				if pos {
+					must = append(must, "+"+t)
+				} else {
+					must = append(must, "-"+t)
+				}
+			}
+			if !feasible {
+				continue
+			}
+			for _, l := range must {
+				if hasLit(siteMust, negLit(l)) {
+					feasible = false
+				}
+			}
+			if !feasible {
+				continue
+			}
+			must = append(must, siteMust...)
+			sort.Strings(must)
+			out = append(out, ctxEdge{c.substParams(root, cs, le.term), must})
+		}
+	}
+	return out, true
+}
